@@ -218,6 +218,15 @@ def fields_rule(ctx, repo, templates):
                     produced.add(k.arg)
         if isinstance(n, ast.Call) and isinstance(n.func, ast.Attribute) and n.func.attr in ('update', 'setdefault') and n.args and isinstance(n.args[0], ast.Constant):
             produced.add(n.args[0].value)
+        # dict(zip(KEYS, values)) / dict.fromkeys(KEYS): the keys are the strings of KEYS (a literal, or a name bound to one in the module)
+        if isinstance(n, ast.Call) and isinstance(n.func, ast.Name) and n.func.id == 'zip' and n.args:
+            k = n.args[0]
+            cands = [k]
+            if isinstance(k, ast.Name):
+                cands = [a.value for a in ast.walk(mod.tree) if isinstance(a, ast.Assign) and any(isinstance(t, ast.Name) and t.id == k.id for t in a.targets)]
+            for c in cands:
+                if isinstance(c, (ast.Tuple, ast.List)):
+                    produced.update(e.value for e in c.elts if isinstance(e, ast.Constant) and isinstance(e.value, str))
     FIELD = re.compile(r'\{?(\$?(?:entry|instruction|next_entry|prev_entry|reg|item|list_entry|row|cell))\[(\w+)\]')
     seen = set()
     for name, (text, line0) in sorted(templates.items()):
